@@ -254,7 +254,8 @@ pub fn run(op: &str, job: &Value) -> Value {
                     // the object atoms: index -> (fields in key order, has an index signature)
                     let mappings: Vec<Value> = ctx.mapping_definitions.iter().enumerate().map(|(i, d)| match d {
                         Some(ma) => json!([i, {"fields": ma.vs.iter().map(|(k, t)| json!([k, crate::sem::semtype_json(t)])).collect::<Vec<_>>(),
-                                               "indexed": ma.indexed_properties.is_some()}]),
+                                               "indexed": ma.indexed_properties.is_some(),
+                                               "index": ma.indexed_properties.as_ref().map(|ip| json!([crate::sem::semtype_json(&ip.key), crate::sem::semtype_json(&ip.value)]))}]),
                         None => json!([i, null]),
                     }).collect();
                     out.insert("mappings".to_string(), Value::Array(mappings));
